@@ -69,6 +69,40 @@ def classify(g):
     return "OTHER:" + show(g), pol
 
 
+def expand_paths(paths):
+    """Split every path guarded by a disjunction of state tests (e.g. `no parent or no clone yet`) into one path
+    per disjunct: (A or B) -> [A] , [not A, B];  not (A or B) -> [not A, not B].  The EXISTING-or-OUTLIER
+    disjunction of the adapted arm is one state of its own and is left alone."""
+    from ..termflow import g_not
+
+    out = []
+    for guards, val in paths:
+        alts = [[]]
+        for g in guards:
+            pol, core = True, g
+            while core[0] == "not":
+                core = core[1]
+                pol = not pol
+            if core[0] == "or":
+                try:
+                    kinds = sorted(classify(x) for x in core[1])
+                except AnalysisError:
+                    kinds = None
+                if kinds != [("EXISTING", True), ("OUTLIER", True)]:
+                    if pol:
+                        branches = []
+                        for i, x in enumerate(core[1]):
+                            branches.append([g_not(y) for y in core[1][:i]] + [x])
+                    else:
+                        branches = [[g_not(y) for y in core[1]]]
+                    alts = [a + b for a in alts for b in branches]
+                    continue
+            alts = [a + [g] for a in alts]
+        for a in alts:
+            out.append((a, val))
+    return out
+
+
 def interval(guards):
     """Probability that the uniform draw satisfies the U-guards of a path: upper - lower."""
     lower, upper = Poly.const(0), Poly.const(1)
@@ -177,7 +211,7 @@ def account(ctx, rule, cls, extra_subst=None):
     # ---- table from sample()
     cells = []
     by_state = {}
-    for guards, val in exs.paths:
+    for guards, val in expand_paths(exs.paths):
         st = {}
         for g in guards:
             kind, pol = classify(g)
@@ -187,6 +221,17 @@ def account(ctx, rule, cls, extra_subst=None):
         p = interval(guards)
         cells.append({"state": st, "outcome": kind, "p": p})
         by_state.setdefault(tuple(sorted(st.items())), []).append(p)
+        # the proposal extends its parent: an arm may start from an empty Tree(...) only when there is no parent
+        from ..formula import atoms_of as _atoms_of
+
+        if _atoms_of(val, "call", "new:Tree"):
+            ctx.rule("A2", "a proposal arm starts from an empty tree only when there is no parent particle; with a parent it extends a copy of the parent's tree (outliers included)", 1)
+            ctx.check(st.get("FIRST") is True, "A2", "%s.sample: arm %s / %s builds on an empty tree only for the first particle" % (cls, dict(st), kind), sample.where(), "in state %s the proposed tree is %s: it starts from an empty tree although a parent particle exists, so the parent's data points (e.g. its outliers) are dropped from the proposed tree" % (dict(st), show(val)[:160]), construct=sample.qualname, stmt="fresh tree in state %s" % sorted(st.items()))
+    if cls.startswith("Semi"):
+        # the adapted arm draws from a table that holds one tree per top-level clone *and* the outlier tree: the
+        # outcome "drawn from the table" covers both placements, and log_p must report the table's probability
+        # (through the same arm) for either
+        cells = cells + [dict(c, outcome="outlier", adapted=True) for c in cells if c["outcome"] == "existing"]
     # B2 (sample side): the threshold chain partitions [0, 1) in every state
     for st, ps in by_state.items():
         tot = Poly.const(0)
@@ -196,7 +241,7 @@ def account(ctx, rule, cls, extra_subst=None):
     # ---- paths of log_p()
     lpaths = []
     ksub = {}
-    for guards, val in exl.paths:
+    for guards, val in expand_paths(exl.paths):
         asg = {}
         for g in guards:
             kind, pol = classify(g)
